@@ -12,7 +12,7 @@ value that reaches a decision or an ordering is invariant under sigma.  This mod
 """
 import ast
 
-from ..engine import argn
+from ..engine import argn, clone
 import copy
 
 from ..core.facts import U
@@ -144,7 +144,7 @@ def both_texts(e):
         def visit_Compare(self, n):
             self.generic_visit(n)
             return mirrored(n) or n
-    t = M().visit(copy.deepcopy(e))
+    t = M().visit(clone(e))
     ast.fix_missing_locations(t)
     out.append(U(t))
     return out
@@ -227,7 +227,7 @@ class _Dual(ast.NodeTransformer):
 
 
 def dualize(node, odd=lambda s: False):
-    d = _Dual(odd).visit(copy.deepcopy(node))
+    d = _Dual(odd).visit(clone(node))
     ast.fix_missing_locations(d)
     return d
 
@@ -241,7 +241,7 @@ def norm_text(node):
                 return ast.Compare(left=n.comparators[0], ops=[ast.Lt() if isinstance(n.ops[0], ast.Gt) else ast.LtE()], comparators=[n.left])
             return n
     try:
-        t = _Canon().visit(copy.deepcopy(node))
+        t = _Canon().visit(clone(node))
         ast.fix_missing_locations(t)
         s = U(t)
     except Exception:
@@ -291,7 +291,7 @@ def specialise(fn_node, mode, mode_flags=(), consts=None):
     a plain name after that folded into their uses.  What remains differs between the two modes exactly where the function
     depends on the mode - written out, whatever idiom selected it.  `consts`: {name: expression} of module-level constants."""
     consts = consts or {}
-    fn = copy.deepcopy(fn_node)
+    fn = clone(fn_node)
 
     def const_of(e):
         """python constant an expression folds to under the mode, or a marker that it does not"""
@@ -330,7 +330,7 @@ def specialise(fn_node, mode, mode_flags=(), consts=None):
             if isinstance(tab, ast.Dict) and k is not _NO and isinstance(n.ctx, ast.Load):
                 for kk, vv in zip(tab.keys, tab.values):
                     if isinstance(kk, ast.Constant) and kk.value == k and type(kk.value) is type(k):
-                        return copy.deepcopy(vv)
+                        return clone(vv)
             return n
 
         def visit_Call(self, n):
@@ -348,7 +348,7 @@ def specialise(fn_node, mode, mode_flags=(), consts=None):
 
         def visit_Name(self, n):
             if isinstance(n.ctx, ast.Load) and n.id in self.env and _inlineable(self.env[n.id]):
-                return copy.deepcopy(self.env[n.id])
+                return clone(self.env[n.id])
             return n
 
     local_names = {y.arg for y in ast.walk(fn.args) if isinstance(y, ast.arg)} | \
